@@ -89,6 +89,12 @@ class Recorder:
         for t in new:
             self.log({"e": "enqueued", "tag": tag, "n": t.number})
 
+    def peek(self):
+        from optuna.trial import TrialState
+
+        ts_ = self.study.get_trials(deepcopy=False, states=(TrialState.WAITING,))
+        self.log({"e": "peek", "tags": [t.user_attrs.get("tag", 0) for t in ts_]})
+
     def ask_run_tell(self, w, rng, names=None):
         from optuna.exceptions import UpdateFinishedTrialError
 
@@ -139,6 +145,8 @@ def sequential_history(config, seed, workdir):
             if x < 0.45:
                 rec.enqueue(rng, rng.choice(["enqueue", "enqueue", "add"]))
                 queued += 1
+            elif x < 0.6:
+                rec.peek()
             else:
                 rec.ask_run_tell(1, rng, names=rng.sample(list(PARAMS), rng.randint(1, 3)))
         drain_and_final(study, rec, queued)
@@ -161,6 +169,15 @@ def concurrent_history(kind, seed, workdir):
 
         sched = ts.Scheduler(("optuna/study/study.py",))
         storages, observer, close = rdb_sched.make_group(sched, workdir, n=3)
+    elif kind.startswith("grpc_"):
+        # three proxies of ONE server with a single worker thread: every request is served by the same server thread
+        from optuna.storages import GrpcStorageProxy
+
+        sched = ts.Scheduler(("optuna/study/study.py",))
+        be = sd.Backend(kind, workdir)
+        storages = [be.storage] + [GrpcStorageProxy(host=be.storage._host, port=be.storage._port) for _ in range(2)]
+        observer = storages[0]
+        close = be.close
     else:
         storages, observer = c03.make_storages(kind, sched)
         close = lambda: None  # noqa
@@ -193,7 +210,7 @@ def concurrent_history(kind, seed, workdir):
             sched.add(mk(w, storages[w - 1], enq_too=(w == nw and rng.random() < 0.5)))
         info = sched.run(c03.random_schedule(rng.getrandbits(30), rng.choice([0.1, 0.3, 0.6]))(sched))
         ev += sched.log
-        obs_study = optuna.load_study(study_name="q", storage=observer if kind == "rdb_conns" else storages[0])
+        obs_study = optuna.load_study(study_name="q", storage=observer if kind in ("rdb_conns",) else storages[0])
         drain_and_final(obs_study, Recorder(obs_study, ev.append), queued[0])
         return {"config": kind, "ev": ev, "deadlock": int(info["deadlock"]),
                 "replay": {"family": "conc", "config": kind, "seed": seed}}
@@ -259,8 +276,8 @@ def run(ctx):
         n = max(3, n_seq // 3) if c in sd.SLOW else n_seq
         seeds = [ctx.seed * 100000 + i for i in range(n)]
         tasks += [("seq", c, seeds[i::2]) for i in range(2)]
-    for kind in ("inmemory", "journal_threads", "journal_procs", "rdb_conns"):
-        n = n_conc // 3 if kind == "rdb_conns" else n_conc
+    for kind in ("inmemory", "journal_threads", "journal_procs", "rdb_conns", "grpc_journal", "grpc_inmemory"):
+        n = n_conc // 3 if kind in ("rdb_conns", "grpc_journal", "grpc_inmemory") else n_conc
         seeds = [ctx.seed * 100000 + 5000 + i for i in range(n)]
         tasks += [("conc", kind, seeds[i::4]) for i in range(4)]
     traces = []
